@@ -138,7 +138,7 @@ class SessTrace:
     def token(self, t):
         """t = token without the session prefix"""
         k, _, rest = t.partition(":")
-        if k in ("cb", "sni", "req", "rsp", "st", "tmo"):
+        if k in ("cb", "sni", "ih", "req", "rsp", "st", "tmo"):
             return
         if k == "ev":
             e = int(rest, 16)
@@ -518,6 +518,27 @@ def cred_matrix():
     out.append(("sni-nosni-key", dict(csni=None, ckey=b"nosni", ssni=snis)))
     out.append(("noident", dict(cid=None)))
     out.append(("nokey", dict(ckey=None)))
+    # lengths around every buffer constant of the TLS glue (COAP_DTLS_MAX_PSK 64,
+    # COAP_DTLS_MAX_PSK_IDENTITY 64, COAP_DTLS_HINT_LENGTH 128), differences only in the tail
+    def tail(n, last):
+        return bytes((37 + 7 * i) % 200 + 33 for i in range(n - 1)) + bytes([last])
+    longk = [tail(n, l) for n in (63, 64, 65, 66, 127, 128, 129, 200) for l in (0x41, 0x42)]
+    longk += [tail(64, 0x41) + b"Z", tail(64, 0x41) + b"ZZ", tail(65, 0x41)[:64]]
+    for i, ck in enumerate(longk):
+        for sk in (longk[i], longk[min(i ^ 1, len(longk) - 1)], tail(64, 0x41), tail(128, 0x41), tail(65, 0x41)[:64]):
+            out.append(("longkey", dict(ckey=ck, skey=sk)))
+    longid = [tail(n, l) for n in (63, 64, 65, 127, 128, 129) for l in (0x41, 0x42)]
+    for i, cid in enumerate(longid):
+        out.append(("longid", dict(cid=cid, ckey=b"k-a", skey=b"default",
+                                   sids=[(longid[i & ~1], b"k-a"), (longid[i | 1], b"k-b")])))
+    longh = [tail(n, l) for n in (63, 64, 65, 126, 127, 128, 129, 140) for l in (0x41, 0x42)]
+    for i, h in enumerate(longh):
+        out.append(("longhint", dict(shint=h, cih=[(longh[i & ~1], b"id", b"secret"), (longh[i | 1], b"id", b"other")])))
+    # the hint callback must be given the server's hint: a table that knows only the EMPTY hint
+    # (with the right credentials) has to reject every server that announces a hint
+    for hint in (b"hint", b"h", b"other-hint"):
+        out.append(("hint-only-empty", dict(shint=hint, cih=[(b"", b"id", b"secret")])))
+    out.append(("hint-only-empty", dict(shint=b"", cih=[(b"", b"id", b"secret")])))
     return out
 
 
@@ -627,6 +648,16 @@ def gen_cases(r, n, tier):
         c = Case(seed=5, ops=[j, j, "C", "qc1", j, "a"])
         c.kind = "inject-first/" + j
         cases.append(c)
+    # a stranger's ClientHello (second source address) at every point of client A's handshake,
+    # with and without a small limit on half-open sessions: A must still be served
+    base = ["qc1", "qn2"] + ["d"] * 14
+    for pos in range(0, len(base) + 1):
+        for mh in ("", "mh1", "mh2"):
+            for rep in (1, 3):
+                ops = ([mh] if mh else []) + ["C"] + base[:pos] + ["in@hello"] * rep + base[pos:] + ["a", "in@hello", "qc3", "a"]
+                c = Case(seed=40 + pos, fd0=pos % 2, ops=ops)
+                c.kind = "stranger-hello"
+                cases.append(c)
     # 5. forced GnuTLS return codes (fault sequences) at every call position of a handshake
     codes = [0, -28, -52, -32, -12, -19, -15, -16, -49, -112, -24, -43, -21, -87, -10, -328, -110, -319,
              -54, -53, -1, -8, -9, -50, -59, -64, -78, -292, -400]
@@ -955,7 +986,7 @@ def tcp_sessions_of(trace):
                     g = rest.split(":")
                     x.snaps[len(x.steps) - 1] = "%s/%s/%s/%s/%s" % (g[0], g[1], g[2], g[3], g[4])
                 continue
-            if k in ("rr", "req", "rsp"):
+            if k in ("rr", "req", "rsp", "ih"):
                 continue
             if k == "rd":
                 x.start("R")
